@@ -192,7 +192,7 @@ Variable devf : devfun.
 Hypothesis Hdev_nd : forall c n t i, NoDup (keys (fst (devf c n t i))).
 Hypothesis Hdev_ext : forall c n t i i', NoDup (keys i) -> NoDup (keys i') -> eqv i i' -> devf c n t i = devf c n t i'.
 Variable f : nat.
-Hypothesis Hsib : sib_ok cfg (S f) c lvc pre inn post.
+Hypothesis Hsib : sib_ok cfg f c lvc pre inn post.
 Notation cfgF := (inline cfg c lvc).
 Notation allc_ := (allc pre inn post).
 Notation outs := (outs_ pre post).
@@ -207,7 +207,7 @@ Record B (sN sF : sstate) : Prop := {
   b_tk : memb lvc (s_ticked sN) = true;
   b_wfN : wake_wf cfg sN;
   b_wfF : wake_wf cfgF sF;
-  b_sub : SUB cfg pre post f sN sF
+  b_sub : SUB cfg lvc pre inn post f sN sF
 }.
 
 Lemma keysN s : wake_wf cfg s -> forall k, In k (keys (wake_of s top)) -> k = c \/ In k outs.
@@ -222,13 +222,13 @@ Qed.
 Lemma keysI s : wake_wf cfg s -> forall k, In k (keys (wake_of s lvc)) -> In k inn.
 Proof.
   intros H k Hk. apply (proj2 (H lvc)) in Hk. rewrite (sh_in _ _ _ _ _ _ Hsh) in Hk.
-  unfold dv in Hk. rewrite map_map in Hk. cbn [fst] in Hk. rewrite map_id in Hk. exact Hk.
+  unfold dki in Hk. rewrite map_map in Hk. cbn [fst] in Hk. rewrite map_id in Hk. exact Hk.
 Qed.
 
 Lemma keysF s : wake_wf cfgF s -> forall k, In k (keys (wake_of s top)) -> In k outs \/ In k inn.
 Proof.
   intros H k Hk. apply (proj2 (H top)) in Hk. rewrite (inline_top_order _ _ _ _ _ _ Hsh) in Hk.
-  rewrite !map_app in Hk. unfold dv, dk in Hk. rewrite !map_map in Hk. cbn [fst] in Hk. rewrite !map_id in Hk.
+  rewrite !map_app in Hk. unfold dki, dk in Hk. rewrite !map_map in Hk. cbn [fst] in Hk. rewrite !map_id in Hk.
   unfold outs_. apply in_app_iff in Hk. destruct Hk as [Hk|Hk]; [left; apply in_app_iff; left; exact Hk|].
   apply in_app_iff in Hk. destruct Hk as [Hk|Hk]; [right; exact Hk | left; apply in_app_iff; right; exact Hk].
 Qed.
@@ -277,9 +277,9 @@ Proof.
   pose proof (tick_inline cfg c lvc pre inn post Hsh devf Hdev_nd Hdev_ext m f Hsib rN rF s1N s1F) as T.
   unfold tick_level.
   assert (T' := T (b_dev _ _ HB)). clear T. rewrite EwN, EwF, EwI in T'. unfold notdue in T'.
-  assert (Hsub1 : SUB cfg pre post f s1N s1F).
-  { intros y ly Hy Hk. destruct (Hsib y ly Hy Hk) as [Htop _].
-    unfold s1N, s1F. apply (SR_set_wake_other _ _ sN sF top _ _ Htop (b_sub _ _ HB y ly Hy Hk)). }
+  assert (Hsub1 : SUB cfg lvc pre inn post f s1N s1F).
+  { intros y ly g Hy. destruct (Hsib y ly g Hy) as [Htop _].
+    unfold s1N, s1F. apply (SR_set_wake_other _ _ sN sF top _ _ Htop (b_sub _ _ HB y ly g Hy)). }
   specialize (T' A7 A1 Erc A4 A5 A6 Hsub1).
   pose proof (tick_with_wf cfg devf (on_tick_level cfg devf (S f)) top m rN [] s1N (on_tick_level_wf cfg devf (S f)) HwfN1) as WN2.
   pose proof (tick_with_wf cfgF devf (on_tick_level cfgF devf (S f)) top m rF [] s1F (on_tick_level_wf cfgF devf (S f)) HwfF1) as WF2.
@@ -349,11 +349,11 @@ Proof.
     destruct Hy as [Hy|Hy]; [left | right; right]; unfold dv; rewrite map_map; cbn [fst]; rewrite map_id; exact Hy.
   - apply wake_wf_set; [exact (b_wfF _ _ HB) | apply NoDup_keys_upd; apply (b_wfF _ _ HB)|].
     intros k Hk. apply in_keys_upd in Hk. destruct Hk as [E|Hk]; [|apply (proj2 (b_wfF _ _ HB top)); exact Hk].
-    subst k. rewrite (inline_top_order _ _ _ _ _ _ Hsh), !map_app. unfold dv. rewrite !map_map. cbn [fst]. rewrite !map_id.
+    subst k. rewrite (inline_top_order _ _ _ _ _ _ Hsh), !map_app. unfold dki, dk. rewrite !map_map. cbn [fst]. rewrite !map_id.
     unfold outs_ in Hy. apply in_app_iff in Hy. apply in_app_iff.
     destruct Hy as [Hy|Hy]; [left; exact Hy | right; apply in_app_iff; right; exact Hy].
-  - intros y' ly Hy' Hk. destruct (Hsib y' ly Hy' Hk) as [Htop _].
-    apply SR_set_wake_other; [exact Htop | apply (b_sub _ _ HB y' ly Hy' Hk)].
+  - intros y' ly g Hy'. destruct (Hsib y' ly g Hy') as [Htop _].
+    apply SR_set_wake_other; [exact Htop | apply (b_sub _ _ HB y' ly g Hy')].
 Qed.
 
 Theorem script_inline : forall script sN sF obN obF,
@@ -378,6 +378,8 @@ Qed.
 
 Lemma map_fst_dv l : map fst (map dv l) = l.
 Proof. unfold dv. rewrite map_map. cbn [fst]. apply map_id. Qed.
+Lemma map_fst_dki' l : map fst (map (dki cfg lvc) l) = l.
+Proof. unfold dki. rewrite map_map. cbn [fst]. apply map_id. Qed.
 Lemma map_fst_dk l : map fst (map (dk cfg) l) = l.
 Proof. unfold dk. rewrite map_map. cbn [fst]. apply map_id. Qed.
 
@@ -398,7 +400,7 @@ Proof.
   assert (ErN : rN = pre ++ c :: post).
   { unfold rN. rewrite (sh_top _ _ _ _ _ _ Hsh), map_app. cbn [map fst]. rewrite !map_fst_dk. reflexivity. }
   assert (ErF : rF = pre ++ inn ++ post).
-  { unfold rF. rewrite (inline_top_order _ _ _ _ _ _ Hsh), !map_app, !map_fst_dk, map_fst_dv. reflexivity. }
+  { unfold rF. rewrite (inline_top_order _ _ _ _ _ _ Hsh), !map_app, !map_fst_dk, map_fst_dki'. reflexivity. }
   assert (Ew0 : forall lv, wake_of s0 lv = []).
   { intros lv. unfold s0, wake_of, set_wake. cbn [s_wake s_init upd get_d lookup]. unfold get_d. cbn [lookup]. destruct (Pos.eqb lv top); reflexivity. }
   assert (Hwf0N : wake_wf cfg (log_tick s0 top initial rN)).
@@ -431,11 +433,11 @@ Proof.
     - intros d Hd. assert (H2 : memb d rF = true) by (apply memb_In; rewrite ErF; apply in_app_iff; right; apply in_app_iff; left; exact Hd).
       rewrite H2. apply memb_In. unfold rootsC_of. apply in_app_iff. right. apply in_app_iff. right. apply in_app_iff. right.
       change (s_ticked (log_tick s0 top initial rN)) with (@nil positive). cbn [memb existsb negb]. apply in_app_iff. left.
-      rewrite map_fst_dv. exact Hd.
+      exact Hd.
     - intros Hc. rewrite Hc in HcN. discriminate.
     - intros d _. reflexivity.
     - intros Hc. rewrite Hc in HcN. discriminate.
-    - intros y ly _ _. split; [intros z _; split; [reflexivity|]; split; [intros q; reflexivity|]; split; [reflexivity|]; split; constructor | intros l _; repeat split; reflexivity].
+    - intros y ly g _. split; [intros z _; split; [reflexivity|]; split; [intros q; reflexivity|]; split; [reflexivity|]; split; constructor | intros l _; repeat split; reflexivity].
     - specialize (T8 HcN). subst tk. split; [|exact T2]. constructor; try assumption.
       + rewrite T5. destruct (min_wake (wake_of sN2 lvc)); reflexivity.
       + apply T6. reflexivity. }
